@@ -24,6 +24,13 @@ class Operand:
         self.sel, self.cells, self.shape, self.whole = sel, cells, shape, whole
 
 
+def odd_spelling(q):
+    """A quantity whose unit the library may or may not know (an SI prefix on activity units: '2 mU', '0.001 kU').  Refusing
+    it is fine; accepting it means doing what it says."""
+    import re
+    return isinstance(q, str) and re.search(r"[0-9.]\s*[a-zµ]{1,2}U$", q) is not None
+
+
 def unit_class(unit):
     return {'L': 'vol', 'g': 'mass', 'mol': 'mol', 'U': 'act'}[unit]
 
@@ -315,6 +322,9 @@ class Bench:
                 status = 'dont_care'
                 if margin == 0:
                     self.stats['exact_capacity_dontcare'] += 1
+        odd = any(odd_spelling(q) for _, q in contents)
+        if odd and status == 'must_accept':
+            status = 'dont_care'
         args = [name]
         kwargs = {}
         if cap is not None:
@@ -328,7 +338,7 @@ class Bench:
             return {'out': out[0], 'status': status}
         c = out[1]
         self.check_result_object(c, key, 'new')
-        if status == 'must_accept' and mexp is not None:
+        if (status == 'must_accept' or odd) and mexp is not None and status != 'must_refuse':
             tol = {n: 20 * W.q_amt(n) for n in mexp.contents}
             self.compare_vessel(c, mexp, tol, key, 'new', prop='C10', clause='constructed_contents')
         if status != 'must_refuse':
@@ -558,6 +568,9 @@ class Bench:
             known = self.known.match_transfer(self, ev, s, d, form, same, overlap, unit)
         plan = self.model_transfer(s, d, q, form, same)
         status = plan['status']
+        if odd_spelling(q) and status == 'must_accept':
+            status = plan['status'] = 'dont_care'
+            self.stats['probe:prefixed_activity_unit'] += 1
         # fingerprints of operands before
         before_s = W.alpha(s.base)
         before_d = before_s if same else W.alpha(d.base)
@@ -593,6 +606,9 @@ class Bench:
         results = [('s', rs)] if (same and rs is rd) else [('s', rs), ('d', rd)]
         for role, obj in results:
             self.check_result_object(obj, key, role)
+        if known and known.get('only_if_raises'):
+            known = None            # the call returned: nothing of what the finding describes happened, everything is judged
+            self.stats['probe:known_failure_region_call_returned'] += 1
         excuse = known.get('excuse', ()) if known else ()
         kid = known.get('id') if known else None
         # ---- C01 conservation on the real objects alone
